@@ -116,6 +116,22 @@ def c17_in1d():
         return True, f"raised AttributeError: {e}"
 
 
+def c07_grid_random_state_none():
+    from gradient_free_optimizers import GridSearchOptimizer
+    space = {"x0": np.array([11, 13, 12, 10, 14])}
+
+    def run(rs):
+        opt = GridSearchOptimizer(space, initialize={"random": 2}, constraints=[lambda p: p["x0"] in (13, 10)], random_state=rs,
+                                  direction="orthogonal")
+        opt.search(lambda p: 0.0, n_iter=18, memory=False, **V)
+        return opt
+    np.random.seed(5); random.seed(5)
+    a = run(None)
+    b = run(a.random_seed)
+    same = list(a.search_data["x0"]) == list(b.search_data["x0"])
+    return not same, f"GridSearch(random_state=None) reproduced by random_state=random_seed={a.random_seed}: {same}"
+
+
 PROBES = {k: v for k, v in list(globals().items()) if k.startswith("c") and callable(v) and k[1:3].isdigit()}
 
 if __name__ == "__main__":
